@@ -554,7 +554,7 @@ C_ITER = ('it', '''requires self.wf(),
 CLIENT_CONTRACTS = {'new': C_NEW, 'insert': C_INSERT, 'contains': C_CONTAINS, 'remove': C_REMOVE, 'is_empty': C_IS_EMPTY, 'clear': C_CLEAR}
 
 
-def declarations(A, repo, arities, with_iter=False):
+def declarations(A, repo, arities, with_iter=False, with_get=False):
     """contract-only declarations of PrefixTreeN for client units (GEN): same contract text as proved above"""
     from units.wbapi import declaration
     src = Source(os.path.join(repo, FILE))
@@ -570,6 +570,9 @@ def declarations(A, repo, arities, with_iter=False):
             it, _ = src.fn_in_impls(r'impl PrefixTree%d\s*\{' % n, nm, fn)
             it.pattern_params()
             A.text(declaration(it, c[0], c[1]), 'contract-only declaration of %s::%s' % (nm, fn))
+        if with_get and n >= 2:
+            it, _ = src.fn_in_impls(r'impl PrefixTree%d\s*\{' % n, nm, 'get')
+            A.text(declaration(it, C_GET[0], C_GET[1]), 'contract-only declaration of %s::get' % nm)
         if with_iter:
             it, _ = src.fn_in_impls(r'impl PrefixTree%d\s*\{' % n, nm, 'iter')
             A.text(declaration(it, C_ITER[0], C_ITER[1], body='{ Vec::<[u32; %d]>::new().into_iter() }' % n), 'ASSUMED contract of %s::iter (bounded-checked only)' % nm)
